@@ -28,6 +28,13 @@ type coreStuck struct {
 	calm    int    // failure-free `end` ops still to come after the stuck phase
 	wRa     int    // after the release: rollapp / index whose finalization is awaited, -1 = none
 	wIdx    uint64
+	// --- w-corem: the op kinds added by agent-corea, issued against the stuck rollapp while its pair is stuck
+	extra  []string // kinds issued in this stuck phase ("punish", "xferowner", "set_seq_params"), each at most once
+	xKind  string   // kind issued by the previous op, "" = none: its outcome is observed next
+	xFin   uint64   // LastFin / Latest / #revisions of the stuck rollapp when that op was issued
+	xLat   uint64
+	xRevs  int
+	wExtra []string // after the release: kinds that were issued in the stuck phase
 }
 
 func (c *coreGen) stuckState() *coreStuck {
@@ -54,11 +61,26 @@ func (c *coreGen) stuckObserve(s *coreSnap) {
 			c.r.Hit("fork-of-stuck-rollapp-refused")
 		}
 	}
+	// --- w-corem: none of the three new op kinds finalizes, reverts or appends anything
+	if st.xKind != "" && st.ra >= 0 && st.ra < len(s.Ras) {
+		if r := s.Ras[st.ra]; r.LastFin == st.xFin && r.Latest == st.xLat && len(r.Revs) == st.xRevs {
+			c.r.Hit("stuck/" + st.xKind + "-leaves-stuck-state-in-place")
+		} else {
+			// the monitor C03/frame/other-rollapp-record-changed reports it when the op was ACCEPTED; a refused
+			// op that changes a record is a correspondence disagreement
+			c.r.Hit("stuck/" + st.xKind + "-moved-the-stuck-rollapp")
+		}
+	}
+	st.xKind = ""
+	// --- w-corem: end
 	if st.wRa >= 0 && st.wRa < len(s.Ras) {
 		r := s.Ras[st.wRa]
 		switch {
 		case r.LastFin >= st.wIdx:
 			c.r.Hit("finalization-resumes-after-stuck")
+			for _, k := range st.wExtra { // w-corem
+				c.r.Hit("finalization-resumes-after-stuck/after-" + k)
+			}
 			st.wRa = -1
 		case st.wIdx > r.Latest:
 			st.wRa = -1 // the stuck state is gone (fork): nothing to wait for
@@ -70,10 +92,16 @@ func (c *coreGen) stuckObserve(s *coreSnap) {
 // fork the rollapp around the stuck state.  "" = nothing to do now.
 func (c *coreGen) stuckOp(s *coreSnap) string {
 	st, g := c.stuckState(), c.g
-	if st.ra < 0 || st.forked || st.done < 1 || st.done >= st.k || st.ra >= len(s.Ras) {
+	if st.ra < 0 || st.done < 1 || st.done >= st.k || st.ra >= len(s.Ras) {
 		return ""
 	}
 	r := s.Ras[st.ra]
+	if l := c.stuckExtraOp(s, st, r); l != "" { // --- w-corem (before and after the fork)
+		return l
+	}
+	if st.forked {
+		return ""
+	}
 	if !r.Exists || st.idx == 0 || int(st.idx) > len(r.States) || !g.Chance(45) {
 		return ""
 	}
@@ -203,7 +231,68 @@ func (c *coreGen) stuckEnd(s *coreSnap, fail string) string {
 			c.r.Hit("stuck-finalization-k-blocks-with-fork")
 		}
 		// release: the next `end` ops carry no failure, finalization must resume
-		*st = coreStuck{ra: -1, calm: 2, wRa: st.ra, wIdx: st.idx}
+		*st = coreStuck{ra: -1, calm: 2, wRa: st.ra, wIdx: st.idx, wExtra: st.extra}
 	}
 	return strings.Join(out, ",")
 }
+
+// --- w-corem: stuckExtraOp — while a pair is stuck, one op of each kind added by agent-corea, aimed at the
+// stuck rollapp: the standalone punish proposal against the creator of the stuck state (mostly; else the
+// rollapp's proposer), a transfer of the stuck rollapp's ownership by its owner, a valid x/sequencer
+// parameter update.  None of them may finalize, revert or append a state (C03 frame monitor), and
+// finalization must resume after the release as without them.
+func (c *coreGen) stuckExtraOp(s *coreSnap, st *coreStuck, r coreRa) string {
+	g := c.g
+	if !r.Exists || st.idx == 0 || len(st.extra) >= 3 || !g.Chance(22) {
+		return ""
+	}
+	var kinds []string
+	for _, k := range []string{"punish", "xferowner", "set_seq_params"} {
+		used := false
+		for _, x := range st.extra {
+			used = used || x == k
+		}
+		if !used {
+			kinds = append(kinds, k)
+		}
+	}
+	k := kinds[g.Intn(len(kinds))]
+	line := ""
+	switch k {
+	case "punish":
+		tgt := -1
+		if int(st.idx) <= len(r.States) && g.Chance(70) {
+			tgt = r.States[st.idx-1].Creator
+		}
+		if _, ok := s.Seqs[tgt]; !ok {
+			tgt = r.Prop
+		}
+		if _, ok := s.Seqs[tgt]; !ok {
+			return ""
+		}
+		if int(st.idx) <= len(r.States) && tgt == r.States[st.idx-1].Creator {
+			c.r.Hit("stuck/punish-creator-of-stuck-state")
+		} else {
+			c.r.Hit("stuck/punish-proposer-of-stuck-rollapp")
+		}
+		rewardee := "-"
+		if g.Chance(50) {
+			rewardee = fmt.Sprintf("a%d", c.pickActor())
+		}
+		line = fmt.Sprintf("punish a%d rewardee=%s auth=gov", tgt, rewardee)
+	case "xferowner":
+		c.r.Hit("stuck/transfer-owner-of-stuck-rollapp")
+		line = fmt.Sprintf("xferowner r%d by=%s to=a%d uc=0", st.ra, r.Owner, c.pickActor())
+	default:
+		c.r.Hit("stuck/seq-params-changed-while-stuck")
+		line = fmt.Sprintf("set_seq_params notice=%d kick=%d mul=%s abs=%d dsu=%d dl=%d auth=gov",
+			[]int64{1000000000, 5000000000}[g.Intn(2)], []uint64{1, 2, 4}[g.Intn(3)],
+			[]string{"0", "500000000000000000", "1000000000000000000"}[g.Intn(3)], []uint64{0, 7, 1000}[g.Intn(3)],
+			[]uint64{0, 1, 2}[g.Intn(3)], []uint64{0, 1, 3}[g.Intn(3)])
+	}
+	st.extra = append(st.extra, k)
+	st.xKind, st.xFin, st.xLat, st.xRevs = k, r.LastFin, r.Latest, len(r.Revs)
+	return line
+}
+
+// --- w-corem: end
